@@ -34,7 +34,7 @@ func main() {
 
 func dev(names []string) {
 	t0 := time.Now()
-	prog, err := vc.Load("/repo", vc.DefaultPatterns)
+	prog, err := vc.Load(repoRoot(), vc.DefaultPatterns)
 	if err != nil {
 		fmt.Println("load error:", err)
 		os.Exit(2)
@@ -94,6 +94,13 @@ func dev(names []string) {
 			}
 		}
 	}
+}
+
+func repoRoot() string {
+	if r := os.Getenv("GOVC_REPO"); r != "" {
+		return r
+	}
+	return "/repo"
 }
 
 func indent(s string) string { return "      " + strings.ReplaceAll(s, "\n", "\n      ") }
